@@ -75,6 +75,11 @@ fn write_body(
         } else {
             source.to_writer(&mut enc)?;
         }
+
+        // Finish explicitly: errors while writing out what is still buffered must not get lost.
+        enc.finish()?;
+        drop(enc);
+        line_wrapper.finish()?;
     }
 
     Ok(())
@@ -123,6 +128,12 @@ impl<W: std::io::Write> Base64Encoder<W> {
             writer,
             &general_purpose::STANDARD,
         ))
+    }
+
+    /// Writes the final partial quantum, reporting errors of the underlying writer
+    /// (dropping the encoder would swallow them).
+    pub(crate) fn finish(&mut self) -> std::io::Result<()> {
+        self.0.finish().map(|_| ())
     }
 }
 impl<W: std::io::Write> std::io::Write for Base64Encoder<W> {
